@@ -149,40 +149,26 @@ theorem C10_lt_irrefl (p : Path) : pathLt p p = false := pathLt_irrefl p
 
 theorem C10_lt_asymm (p q : Path) (h : pathLt p q = true) : pathLt q p = false := pathLt_asymm p q h
 
-/-- FULL statement: `<` is a strict total order on key paths over ints and strs … -/
-def C10_lt_order_Full : Prop :=
-  (∀ p q r : Path, pathLt p q = true → pathLt q r = true → pathLt p r = true) ∧
-  (∀ p q : Path, p ≠ q → pathLt p q = true ∨ pathLt q p = true)
+/-- `<` is a STRICT TOTAL ORDER on key paths over ints and strs — full statement, no exclusion
+(the model mirrors the tree with fix C10-F38: ints numerically, strs lexicographically, an int
+before a str; before the fix a mixed pair was compared by the `str()` forms and the statement
+was false: `[10] < ['1a'] < [2] < [10]`, and `[0]`, `['0']` unordered). -/
+theorem C10_lt_trans (p q r : Path) (h1 : pathLt p q = true) (h2 : pathLt q r = true) :
+    pathLt p r = true :=
+  pathLt_trans p q r h1 h2
 
-/-- … which is false on the code as it is (finding F38): an int and a str key are compared by
-their `str()` forms but two ints numerically, so `[10] < ['1a'] < [2]` while `[2] < [10]`. -/
-theorem C10_lt_order_counterexample : ¬ C10_lt_order_Full := by
-  intro h
-  have := h.1 [.i 10] [.s ['1', 'a']] [.i 2] (by decide) (by decide)
-  revert this
+theorem C10_lt_total (p q : Path) (hne : p ≠ q) : pathLt p q = true ∨ pathLt q p = true :=
+  pathLt_total p q hne
+
+/-- The wrapper's `==` is equality of keys (in particular `0` and `'0'` are different). -/
+theorem C10_key_eq (a b : Key) : keyEqW a b = true ↔ a = b := keyEqW_iff a b
+
+/-- The former counterexamples (finding F38) as regression instances. -/
+example : pathLt [.i 2] [.i 10] = true ∧ pathLt [.i 10] [.s ['1', 'a']] = true ∧
+    pathLt [.i 2] [.s ['1', 'a']] = true ∧ pathLt [.s ['1', 'a']] [.i 2] = false := by decide
+example : pathLt [.i 0] [.s ['0']] = true := by decide
+example : pathLt [.s ['a'], .i 2] [.s ['a'], .i 10] = true ∧ pathLt [.s ['a'], .i 1] [.s ['a'], .s ['b']] = true := by
   decide
-
-/-- Nor is it total: `KeyPath(0)` and `KeyPath('0')` are different paths, neither is smaller. -/
-theorem C10_lt_total_counterexample :
-    ¬ ∀ p q : Path, p ≠ q → pathLt p q = true ∨ pathLt q p = true := by
-  intro h
-  have := h [.i 0] [.s ['0']] (by decide)
-  revert this
-  decide
-
-/-- PARTIAL: on paths that agree in key *kind* position by position (`compat`: e.g. all the
-paths of one tree whose dicts have str keys and whose lists are indexed by ints) `<` is
-transitive and total, hence a strict total order. -/
-theorem C10_lt_trans_partial (p q r : Path) (c1 : compat p q = true) (c2 : compat q r = true)
-    (h1 : pathLt p q = true) (h2 : pathLt q r = true) : pathLt p r = true :=
-  pathLt_trans p q r c1 c2 h1 h2
-
-theorem C10_lt_total_partial (p q : Path) (c : compat p q = true) (hne : p ≠ q) :
-    pathLt p q = true ∨ pathLt q p = true :=
-  pathLt_total p q c hne
-
-example : compat [.s ['a'], .i 1, .s ['b']] [.s ['a'], .i 2] = true := by decide
-example : pathLt [.s ['a'], .i 2] [.s ['a'], .i 10] = true := by decide
 
 /-! ## 3. `KeyPathSet` behaves as a mathematical set
 
